@@ -10,6 +10,7 @@ import (
 	"context"
 
 	"github.com/tokenized/pkg/wire"
+	"github.com/tokenized/spynode/internal/handlers"
 
 	"github.com/tokenized/spynode/internal/verifrt"
 )
@@ -18,6 +19,14 @@ import (
 // onto a longer branch, process it, shut down (saves).
 func c10Scenario(w *c01World, forkTip string) {
 	w.settle(4) // initial sync to the peer's tip, in-sync notification
+	if !w.dead && !w.headersOnly {
+		// a relevant transaction arrives unconfirmed (the first block of the new branch will confirm
+		// it): its storage writes are crash / fault points like any other
+		perr := w.k.node.processUnconfirmedTx(w.ctx, handlers.TxData{Msg: vkTx(2, []int{0}, true), Trusted: true, ConfirmedHeight: -1})
+		if perr != nil {
+			verifrt.Note("unconfirmed tx not processed: %v", perr)
+		}
+	}
 	w.peer.setBest(forkTip)
 	w.settle(4)
 	if w.dead {
